@@ -261,11 +261,73 @@ fn serializable(r: &mut Prng, n: usize, rep: &mut Report) {
                 }
                 other => rep.fail(&key, "SerializableProgram does not load what it saved", json!({"program": w, "json": js}), json!(format!("{other:?}"))),
             }
+            // FOREIGN encodings of the same program (what a blueprint written by another tool may carry):
+            // a non-minimal CBOR length header, trailing bytes.  Published next to their TRUE ledger hash.
+            // Loading must either reject them or keep code and hash bit for bit.
+            if let Some(flat) = foreign_flat(&code) {
+                let mut variants: Vec<(&str, Vec<u8>)> = vec![];
+                let n = flat.len();
+                if n < 24 {
+                    let mut v = vec![0x58, n as u8];
+                    v.extend_from_slice(&flat);
+                    variants.push(("cbor-header-1-byte-length", v));
+                }
+                if n < 256 {
+                    let mut v = vec![0x59, 0, n as u8];
+                    v.extend_from_slice(&flat);
+                    variants.push(("cbor-header-2-byte-length", v));
+                }
+                if n < 65536 {
+                    let mut v = vec![0x5a, 0, 0, (n >> 8) as u8, n as u8];
+                    v.extend_from_slice(&flat);
+                    variants.push(("cbor-header-4-byte-length", v));
+                }
+                let mut t = code.clone();
+                t.push(0);
+                variants.push(("trailing-byte", t));
+                for (vname, bytes) in variants {
+                    rep.evaluations += 1;
+                    let published = ledger_hash(tag, &bytes);
+                    let js = json!({"compiledCode": hex::encode(&bytes), "hash": published});
+                    let fkey = format!("foreign-encoding:{vname}:v{tag}");
+                    match guarded(AssertUnwindSafe(|| serde_json::from_value::<SerializableProgram>(js.clone()).map_err(|e| e.to_string()))) {
+                        Ok(Ok(back)) => {
+                            rep.count(&format!("foreign:{vname}:accepted"));
+                            let (h2, s2) = back.compiled_code_and_hash();
+                            if h2.to_string() != published || &*s2 != &bytes[..] {
+                                rep.fail(
+                                    &fkey,
+                                    "a blueprint whose code is a foreign (non-canonical) encoding was accepted and its code / hash changed on the way through load",
+                                    json!({"program": w, "json": js}),
+                                    json!({"published_hash": published, "hash_after_load": h2.to_string(), "code_after_load": hex(&s2)}),
+                                );
+                            }
+                        }
+                        Ok(Err(_)) => rep.count(&format!("foreign:{vname}:rejected")),
+                        Err(m) => rep.fail(&fkey, "loading a blueprint with a foreign encoding panicked", json!({"json": js}), json!(m)),
+                    }
+                }
+            }
             if i < 1 && tag == 3 {
                 rep.sample(json!({"serializable": w, "hash": hash, "code": hex(&code)}));
             }
         }
     }
+}
+
+/// the flat payload of a canonical CBOR byte-string wrapper (definite length, minimal header)
+fn foreign_flat(cbor: &[u8]) -> Option<Vec<u8>> {
+    let b0 = *cbor.first()?;
+    let (hdr, len) = match b0 {
+        0x40..=0x57 => (1usize, (b0 - 0x40) as usize),
+        0x58 => (2, *cbor.get(1)? as usize),
+        0x59 => (3, ((*cbor.get(1)? as usize) << 8) | *cbor.get(2)? as usize),
+        _ => return None,
+    };
+    if cbor.len() != hdr + len {
+        return None;
+    }
+    Some(cbor[hdr..].to_vec())
 }
 
 /// blueprint `Validator` (title/parameters/compiledCode/hash): save → load → save is the
